@@ -20,3 +20,6 @@ for mode in ("append", "delete", "both"):
     register(Unit(P, f"DERIVE/_commit_file_ops-{mode}", cp.h_commit_file_ops(mode), functions=[f"{cp.TX}:Transaction._commit_file_ops"], replay=cp._replay_tx))
 register(Unit(P, "DERIVE/create_snapshot", cp.h_create_snapshot, functions=[f"{cp.SM}:SnapshotManager.create_snapshot"], replay=cp._replay_tx))
 register(Unit(P, "DERIVE/delete_snapshot", cp.h_delete_snapshot, functions=[f"{cp.SM}:SnapshotManager.delete_snapshot"], replay=cp._replay_tx))
+from contracts import C19_locks as _c19
+register(Unit(P, "GUAR-lock/FileLock.release(inode-persistent)", _c19.h_release, functions=["file_lock:FileLock.release"], replay=_c19._replay_flock, reg_factory=_c19.registry))
+register(Unit(P, "GUAR-lock/FileLock._try_acquire_once", _c19.h_try_acquire_once, functions=["file_lock:FileLock._try_acquire_once"], replay=_c19._replay_flock, reg_factory=_c19.registry))
